@@ -1,3 +1,4 @@
+import AbtemVerif.Gen.Build
 /-
 C10 — orchestration model of potential building and slice windows
 (abtem/potentials/iam.py: `BaseField._exit_plane_after`, `_validate_exit_planes`,
@@ -13,6 +14,7 @@ and the model mirrors the control flow / index bookkeeping around them.  `V` is 
 of slice arrays, `T` the type of thickness entries.  Core Lean only.
 -/
 namespace AbtemVerif.Build
+open AbtemVerif.Gen.Build
 
 instance {ε α} [DecidableEq ε] [DecidableEq α] : DecidableEq (Except ε α)
   | .ok a, .ok b => if h : a = b then isTrue (by rw [h]) else isFalse (by intro h'; cases h'; exact h rfl)
@@ -157,8 +159,9 @@ block `c` is written to row `c`. -/
 def buildEager {V T} (ts : List T) (eps : List Int) (blocks : List Nat)
     (slicesOf : Nat → Except String (List (Slice V T))) (first : Nat) (last : Option Int) : Except String (Built V T) := do
   let last : Int := last.getD ts.length
-  if last - first < 0 then throw "value_error"       -- np.zeros with a negative dimension
-  let width := (last - first).toNat
+  -- `xp.zeros(ensemble_shape + (last_slice - first_slice,) + gpts)`: generated `eagerWidth`
+  if eagerWidth first last < 0 then throw "value_error"       -- np.zeros with a negative dimension
+  let width := (eagerWidth first last).toNat
   let rows ← blocks.mapM (eagerRow width slicesOf)
   let th := pySlice ts first last
   if th.length ≠ width then throw "runtime_error"    -- _validate_slice_thickness(num_slices=array.shape[-3])
@@ -179,8 +182,9 @@ def buildLazy {V T} (ts : List T) (eps : List Int) (blocks : List Nat)
     (slicesOf : Nat → Except String (List (Slice V T))) (first : Nat) (last : Option Int) : Except String (Built V T) := do
   let lastI : Int := last.getD ts.length
   let th := pySlice ts first lastI
-  -- the output array object (declared shape `… + (last - first,) + gpts`) is validated before anything is computed
-  if (th.length : Int) ≠ lastI - first then throw "runtime_error"
+  -- the output array object (declared chunk shape `… + (last_slice - first_slice,) + gpts`: generated `lazyWidth`) is
+  -- validated before anything is computed
+  if (th.length : Int) ≠ lazyWidth first lastI then throw "runtime_error"
   let rows ← blocks.mapM (lazyBlockRow ts eps slicesOf first last)
   return ⟨rows, th, eps⟩
 
